@@ -586,7 +586,7 @@ pub fn ci_wilson_ratio(
     if success_rate <= 0. {
         return Err(CIError::NonPositiveValue(success_rate));
     }
-    let successes = (success_rate * population as f64) as usize;
+    let successes = (success_rate * population as f64).round() as usize;
 
     ci_wilson(confidence, population, successes)
 }
